@@ -23,7 +23,7 @@ class C15(BaseCheck):
   RULE = ('case = 8 produce requests built by the real KafkaProtocol + KafkaTransportSink._BuildHeader '
           '(topic bytes incl. empty/long/non-ASCII bytes, partition ids incl. 0/2^31-1, acks in '
           '{-1,0,1}, payload lists incl. [] / empty payload / 1 MiB / arbitrary bytes, correlation ids '
-          'over the tag range) parsed by the independent v0 parser (sizes, CRC32, magic, null key), '
+          'over the tag range, stock client id or a transport subclass with a shorter / longer / empty / non-ASCII CLIENT_ID) parsed by the independent v0 parser (sizes, CRC32, magic, null key), '
           'plus 6 produce and 4 metadata responses built by the independent encoder and decoded by '
           'the real deserializer, plus (sim) concurrent produce calls through the real serializer+'
           'transport sinks against a simulated broker that answers out of order, in half of the cases with '
@@ -39,7 +39,7 @@ class C15(BaseCheck):
   REQUIRED_ANCHORS = ANCHORS
   REQUIRED_CLASSES = ('payloads:none', 'payload:empty', 'payload:large', 'acks:-1', 'acks:0', 'acks:1',
                       'resp:produce', 'resp:metadata', 'routing', 'routing:timeouts', 'routing:timed-out-in-transit',
-                      'routing:while-opening', 'full-client', 'full-client:unlisted-error-code')
+                      'routing:while-opening', 'full-client', 'full-client:unlisted-error-code', 'custom-client-id')
   ASSUMPTIONS = ('topics and payloads are bytes (the only form the Python-3 code path and the '
                  'repository\'s own test use)',)
   QUICK_CASES = 640
@@ -51,6 +51,11 @@ class C15(BaseCheck):
   def setup(self, env, tier):
     from scales.kafka.sink import KafkaTransportSink
     self.transport = KafkaTransportSink(_Sock(), 'svc')
+    # transports whose client id was customised the only way the library offers (class attribute)
+    self.transports = [self.transport]
+    for cid in (b'app', b'billing-producer', b'', 'clïent'.encode('utf-8')):
+      sub = type('CustomIdTransport', (KafkaTransportSink,), {'CLIENT_ID': cid})
+      self.transports.append(sub(_Sock(), 'svc'))
 
   def run_case(self, env, rng, idx, tier):
     from scales.kafka.protocol import (KafkaProtocol, MessageType, ProduceResponse,
@@ -97,7 +102,10 @@ class C15(BaseCheck):
       facts = {}
       try:
         mtype = proto.SerializeMessage(msg, buf, headers)
-        data = self.transport._BuildHeader(corr, headers[TransportHeaders.MessageType], buf.tell()) + buf.getvalue()
+        tr_ = self.transport if rng.random() < 0.6 else rng.choice(self.transports)
+        if tr_ is not self.transport:
+          classes.add('custom-client-id')
+        data = tr_._BuildHeader(corr, headers[TransportHeaders.MessageType], buf.tell()) + buf.getvalue()
       except Exception as e:  # noqa
         out.violate('request:build-failed', 'building a produce request raised %s: %s' % (type(e).__name__, e),
                     {'exc': type(e).__name__}, {'topic': topic, 'acks': acks, 'npayloads': np_})
@@ -113,8 +121,9 @@ class C15(BaseCheck):
       if (req['api_key'], req['api_version'], req['correlation_id']) != (0, 0, corr) or mtype != MessageType.ProduceRequest:
         out.violate('request:header', 'header fields %r for correlation id %d' % (
           (req['api_key'], req['api_version'], req['correlation_id']), corr), facts)
-      if req['client_id'] != b'scales':
-        out.violate('request:client-id', 'client id %r' % (req['client_id'],), facts)
+      if req['client_id'] != tr_.CLIENT_ID:
+        out.violate('request:client-id', 'client id %r on the wire, the transport\'s is %r' % (req['client_id'], tr_.CLIENT_ID),
+                    {'custom': tr_ is not self.transport})
       if req['acks'] != acks:
         out.violate('request:acks', 'acks %r, supplied %r' % (req['acks'], acks), facts)
       ok_shape = (len(req['topics']) == 1 and req['topics'][0]['topic'] == topic
